@@ -230,7 +230,7 @@ func c14(c *Ctx) {
 	const chunkOK = "*checksumEqual(*snapshotChecksum(*readSnapshotChunkFile(*)#0), manifest.ChunkChecksums[*]) == true"
 	c.Guard("R2-read", read, RetNil{},
 		"*SnapshotManifest.Validate(manifest, scope) == nil",
-		"len(*) == manifest.TotalSize",
+		"len(*) == *.TotalSize",
 		"*checksumEqual(*snapshotChecksum(*), manifest.WholeChecksum) == true")
 	c.Guard("R2-read", read, CallTo{"append(*readSnapshotChunkFile(*)#0)"}, chunkOK, "*readSnapshotChunkFile(*)#1 == nil")
 	c.CallShape("R2-read", read, c14P+"readSnapshotChunkFile", "*(*, *expectedChunkSize(manifest, *))")
@@ -248,27 +248,27 @@ func c14(c *Ctx) {
 	view := c.Fn(c14P + "pebbleStore.loadSnapshotMetaViewFrom")
 	c.Guard("R2-read", view, RetNil{}, "*validateManifestMetaConsistency(*) == nil", "*loadSnapshotManifestFrom(*)#2 == nil", "*loadMetaFrom(*)#2 == nil")
 	cons := c.Fn(c14P + "validateManifestMetaConsistency")
-	c.Guard("R2-read", cons, RetNil{}, "!hasManifest || hasMeta", "!hasManifest || meta.SnapshotIndex == manifest.Index", "!hasManifest || meta.SnapshotTerm == manifest.Term",
+	c.Guard("R2-read", cons, RetNil{}, "!hasManifest || hasMeta", "!hasManifest || meta.SnapshotIndex == manifest.Index", "!hasManifest || meta.SnapshotTerm == *.Term",
 		"hasManifest || !hasMeta || meta.SnapshotIndex <= 0")
 
 	apply := c.Fn(c14P + "saveOp.apply")
 	const outOfDate = "go.etcd.io/raft/v3.ErrSnapOutOfDate"
 	staging := OneOf{CallTo{pb + "Batch.Set(batch, *encodeSnapshotKey(*"}, StoreTo{"state.snapshot", ""}, StoreTo{"state.snapshotManifest", ""}}
 	c.Guard("R2-stale", apply, staging,
-		"st.Snapshot.Index >= state.snapshot.Metadata.Index",
-		"st.Snapshot != nil",
-		"st.SnapshotManifest != nil",
+		"*.Snapshot.Index >= state.snapshot.Metadata.Index",
+		"*.Snapshot != nil",
+		"*.SnapshotManifest != nil",
 		"*encodeSnapshotManifest(*)#1 == nil",
-		"st.Snapshot.Index != state.snapshot.Metadata.Index || state.snapshotManifest == nil || *snapshotManifestEquivalent(*) == true || op.allowSnapshotReplace")
-	c09AfterEdge(c, "R2-stale", apply, "st.Snapshot.Index < state.snapshot.Metadata.Index", OneOf{CallTo{pb + "Batch.*"}, RetNil{}, CallTo{c14P + "pebbleStore.setMeta"}}, Ret{0, outOfDate})
+		"*.Snapshot.Index != state.snapshot.Metadata.Index || state.snapshotManifest == nil || *snapshotManifestEquivalent(*) == true || op.allowSnapshotReplace")
+	c09AfterEdge(c, "R2-stale", apply, "*.Snapshot.Index < state.snapshot.Metadata.Index", OneOf{CallTo{pb + "Batch.*"}, RetNil{}, CallTo{c14P + "pebbleStore.setMeta"}}, Ret{0, outOfDate})
 	plan := c.Fn(c14P + "DB.planSnapshotSave")
-	c.Guard("R2-stale", plan, RetNil{}, "!view.hasManifest || snap.Metadata.Index >= manifest.Index", "*loadSnapshotMetaView(*)#1 == nil")
-	c09AfterEdge(c, "R2-stale", plan, "snap.Metadata.Index < manifest.Index", RetNil{}, Ret{1, outOfDate})
+	c.Guard("R2-stale", plan, RetNil{}, "!*.hasManifest || snap.Metadata.Index >= *.Index", "*loadSnapshotMetaView(*)#1 == nil")
+	c09AfterEdge(c, "R2-stale", plan, "snap.Metadata.Index < *.Index", RetNil{}, Ret{1, outOfDate})
 	c.Guard("R2-stale", plan, StoreTo{"*.ExistingManifest", ""},
-		"snap.Metadata.Term == manifest.Term", "*confStateEqual(*) == true", "len(snap.Data) == manifest.TotalSize", "bytes.Equal(*snapshotChecksum(snap.Data), manifest.WholeChecksum) == true")
+		"snap.Metadata.Term == *.Term", "*confStateEqual(*) == true", "len(snap.Data) == *.TotalSize", "bytes.Equal(*snapshotChecksum(snap.Data), manifest.WholeChecksum) == true")
 	save := c.Fn(c14P + "pebbleStore.Save")
 	c.Guard("R2-stale", save, OneOf{CallTo{c14P + "DB.submitWrite"}, CallTo{c14P + "DB.publishSnapshotAndCommit"}, CallTo{c14P + "DB.prepareAndWriteSnapshot"}},
-		"st.Snapshot == nil || *planSnapshotSave(*)#1 == nil")
+		"*.Snapshot == nil || *planSnapshotSave(*)#1 == nil")
 
 	// ---- R3: snapshot publish order -------------------------------------------------
 	wsf := c.Fn(c14P + "writeSyncedFile")
